@@ -20,27 +20,27 @@ Facts == ndJsonDeserialize("facts.ndjson")
 \* Facts[p] = [edges, resolve : <<<<site, line>>>>, reach, allfuncs, fr_all, fr_nomain, fr_noinit, fr_none : <<line>>]
 
 PairSet(q) == {<<q[j][1], q[j][2]>> : j \in 1 .. Len(q)}
-ToSet(q)   == {q[j] : j \in 1 .. Len(q)}
+SeqToSet(q)   == {q[j] : j \in 1 .. Len(q)}
 
 Decl(pp, f) == Progs[pp].decl[f]
 
 IsCall(e) == e.e \in {"call", "go"}
 
 EdgeOK(pp, e)    == e.a = 0 \/ <<e.a, Decl(pp, e.s)>> \in PairSet(Facts[pp].edges)
-ExecOK(pp, e)    == Decl(pp, e.s) \in ToSet(Facts[pp].reach)
+ExecOK(pp, e)    == Decl(pp, e.s) \in SeqToSet(Facts[pp].reach)
 ResolveOK(pp, e) == e.a = 0 \/ <<e.a, Decl(pp, e.s)>> \in PairSet(Facts[pp].resolve)
-ReachOK(pp, e)   == Decl(pp, e.s) \in ToSet(Facts[pp].fr_all)
+ReachOK(pp, e)   == Decl(pp, e.s) \in SeqToSet(Facts[pp].fr_all)
 
 Sound_C12 == \A e \in ev : IsCall(e) => EdgeOK(p, e) /\ ExecOK(p, e) /\ ResolveOK(p, e)
 Sound_C18 == \A e \in ev : IsCall(e) => ReachOK(p, e)
 
 RelOK(pp) ==
     LET F == Facts[pp] IN
-    /\ ToSet(F.reach) \subseteq ToSet(F.fr_all)
-    /\ ToSet(F.fr_all) \subseteq ToSet(F.allfuncs)
-    /\ ToSet(F.fr_nomain) \subseteq ToSet(F.fr_all)
-    /\ ToSet(F.fr_noinit) \subseteq ToSet(F.fr_all)
-    /\ ToSet(F.fr_none) \subseteq ToSet(F.fr_nomain) \cap ToSet(F.fr_noinit)
+    /\ SeqToSet(F.reach) \subseteq SeqToSet(F.fr_all)
+    /\ SeqToSet(F.fr_all) \subseteq SeqToSet(F.allfuncs)
+    /\ SeqToSet(F.fr_nomain) \subseteq SeqToSet(F.fr_all)
+    /\ SeqToSet(F.fr_noinit) \subseteq SeqToSet(F.fr_all)
+    /\ SeqToSet(F.fr_none) \subseteq SeqToSet(F.fr_nomain) \cap SeqToSet(F.fr_noinit)
 
 Miss(r, what) == [p |-> r.p, what |-> what, site |-> r.ev.a, callee |-> r.ev.s, dec |-> r.dec, sched |-> r.sched]
 
